@@ -155,3 +155,46 @@ Fixpoint parse_stt_loop (fuel:nat) (stt:str) (prev_pos:N) (cpt t:nat) : transiti
       else if pos =? npos then empty_transition else parse_stt_loop f stt (wadd pos 1) (S cpt) t
   end.
 Definition parse_stt (t:nat) (stt:str) : transition := parse_stt_loop (S (length stt)) stt 0 0%nat t.
+
+(* s.rfind(pat, pos): the last index <= pos at which pat occurs (npos if none) *)
+Fixpoint rfind_at (pat s:str) (i limit best:N) : N :=
+  let best' := if is_prefix pat s && (i <=? limit) then i else best in
+  match s with
+  | [] => best'
+  | _ :: t => rfind_at pat t (i + 1) limit best'
+  end.
+Definition rfind (pat s:str) (pos:N) : N := rfind_at pat s 0 pos npos.
+
+(* count_inits: the number of "[*] -> State" lines (the recursion on substrings is transcribed with fuel) *)
+Fixpoint count_inits_loop (fuel:nat) (s:str) (occ:nat) : nat :=
+  match fuel with
+  | O => occ
+  | S f =>
+      let star_pos := find c_initstar s in
+      if star_pos =? npos then occ
+      else
+        let endl := find_from [c_nl] s star_pos in
+        let arrow := find_from c_arrow s star_pos in
+        if (star_pos <? arrow) && (arrow <? endl) then count_inits_loop f (substr_from s endl) (S occ)
+        else count_inits_loop f (substr_from s (wadd star_pos 3)) occ
+  end.
+Definition count_inits (s:str) : nat := count_inits_loop (S (length s)) s 0%nat.
+
+(* count_terminates: the number of "State -> [*]" lines *)
+Fixpoint count_terminates_loop (fuel:nat) (s:str) (occ:nat) : nat :=
+  match fuel with
+  | O => occ
+  | S f =>
+      match s with
+      | [] => occ
+      | _ =>
+          let star_pos := find c_initstar s in
+          let arrow := rfind c_arrow s star_pos in
+          let endl := rfind [c_nl] s star_pos in
+          if negb (star_pos =? npos) && negb (arrow =? npos) && (endl <? arrow)
+          then count_terminates_loop f (substr_from s (wadd star_pos 3)) (S occ)
+          else if negb (star_pos =? npos) then count_terminates_loop f (substr_from s (wadd star_pos 3)) occ
+          else occ
+      end
+  end.
+Definition count_terminates (s:str) : nat := count_terminates_loop (S (length s)) s 0%nat.
